@@ -269,6 +269,15 @@ func (v *UnixVolume) WriteBlock(ctx context.Context, loc string, rdr io.Reader) 
 	if v.IsFull() {
 		return FullError
 	}
+	// Touch() must be called before writing a block (see Trash()).
+	// PutBlock does that only after a successful Compare(), so do
+	// it here too, in case a copy that failed the comparison
+	// (e.g., corrupt data) is about to be replaced: Touch() and
+	// Trash() both hold the file lock, so a concurrent Trash() has
+	// either moved the old copy away already, or will see a
+	// current timestamp and leave alone the file we rename into
+	// place below. An error just means there is nothing to protect.
+	v.Touch(loc)
 	bdir := v.blockDir(loc)
 	if err := os.MkdirAll(bdir, 0755); err != nil {
 		return fmt.Errorf("error creating directory %s: %s", bdir, err)
